@@ -1987,7 +1987,8 @@ func (schema *Schema) visitJSONObject(settings *schemaValidationSettings, value 
 			reqRO := settings.asreq && propSchema.Value.ReadOnly && !settings.readOnlyValidationDisabled
 			repWO := settings.asrep && propSchema.Value.WriteOnly && !settings.writeOnlyValidationDisabled
 
-			if f := settings.defaultsSet; f != nil && value[propName] == nil {
+			_, present := value[propName] // present with the value null is not absent
+			if f := settings.defaultsSet; f != nil && !present {
 				// A recursive schema may carry a default for itself: its default is not
 				// injected again inside a value that is itself that default.
 				if dflt := propSchema.Value.Default; dflt != nil && !reqRO && !repWO && settings.defaultsInProgress[propSchema.Value] == 0 {
